@@ -544,14 +544,29 @@ impl<'a> Interp<'a> {
     pub fn finish(self, id: u64, prop: &str, generator: &str, _beh: &Value) -> Vec<Value> {
         let log = take_log();
         let ncid = log.iter().map(|p| p.cid).max().unwrap_or(0) as usize;
-        let mut tabs: Vec<Vec<Value>> = vec![vec![]; ncid];
+        // per cipher: the function graph y = E(x), bucketed by the first byte of x ("e") and of y ("d")
+        // so that the specification's lookup scans a handful of pairs instead of the whole table
+        let mut eb: Vec<Vec<Vec<Value>>> = vec![vec![vec![]; 256]; ncid];
+        let mut db: Vec<Vec<Vec<Value>>> = vec![vec![vec![]; 256]; ncid];
         let mut seen: Vec<std::collections::HashSet<(Vec<u8>, bool)>> = vec![Default::default(); ncid];
+        let mut ndec = vec![0usize; ncid];
+        let mut npairs = vec![0usize; ncid];
         for p in log {
             let i = (p.cid - 1) as usize;
+            if p.x.is_empty() {
+                continue;
+            }
             if seen[i].insert((p.x.clone(), p.dec)) {
-                tabs[i].push(json!([p.x, p.y, if p.dec { 1 } else { 0 }]));
+                let rec = json!([p.x, p.y]);
+                eb[i][p.x[0] as usize].push(rec.clone());
+                db[i][p.y[0] as usize].push(rec);
+                npairs[i] += 1;
+                if p.dec {
+                    ndec[i] += 1;
+                }
             }
         }
+        let tabs: Vec<Value> = (0..ncid).map(|i| json!({"e": eb[i], "d": db[i], "n": npairs[i], "ndec": ndec[i]})).collect();
         let mut v = vec![json!({"ev":"scn","id":id,"prop":prop,"gen":generator,"seed":self.seed.to_string(),
             "n": self.events.len(), "tabs": tabs, "skipped": self.skipped})];
         v.extend(self.events);
